@@ -95,15 +95,16 @@ def _get_filepaths_and_sizes(info):
     # Singlefile torrent
     length = info.get('length', None)
     if length:
-        return [(name, length)]
+        return [((name,), length)]
 
     # Multifile torrent
     files = info.get('files', None)
     if files:
         files_and_sizes = []
         for file in files:
+            # Compare path segments, not joined paths: ['a/b'] is not ['a', 'b']
             files_and_sizes.append((
-                os.sep.join((name, *file['path'])),
+                (name, *file['path']),
                 file['length'],
             ))
         return sorted(files_and_sizes)
